@@ -34,6 +34,59 @@ type staleLine struct {
 	Peer2Closed  bool            `json:"peer2_closed"`
 	Gen2Works    bool            `json:"gen2_round_trip"`
 	Fault        string          `json:"fault"`
+	// t = "stale_t7": the NotSelected dwell timer of generation N against generation N+1
+	T7Ms     int `json:"t7_ms"`
+	OffMs    int `json:"off_ms"`    // generation N was ended by the peer at T7 + off
+	Dwell2Us int `json:"dwell2_us"` // peer's view: connect of generation N+1 started -> EOF from the library
+	Dropped2 bool `json:"dropped2"`  // generation N+1 was ended by the library (its own T7) within the observation window
+}
+
+// staleT7Scenario: a passive endpoint, the peer connects and never selects. Generation N is ended by the peer just
+// before its T7 dwell would expire; the peer reconnects at once and stays silent again. Generation N+1 must get its full
+// dwell: a T7 timer armed for N that fires into N+1 would cut it short. Times are the PEER's (connect started before the
+// library can have armed, EOF seen after the library dropped), so the measured dwell only ever errs on the long side.
+func staleT7Scenario(offMs int) *staleLine {
+	const t7 = 80 * time.Millisecond
+	line := &staleLine{T: "stale_t7", Role: "passive", NotesAfter: []lab.StateNote{}, T7Ms: int(t7 / time.Millisecond), OffMs: offMs}
+	cut, err := lab.NewCUT(lab.Options{Passive: true, Sid: 0x0102, T3: time.Second, T6: time.Second, T7: t7, T8: time.Second,
+		CloseTimeout: 500 * time.Millisecond, BackoffInit: time.Millisecond, T5: 5 * time.Millisecond})
+	if err != nil {
+		line.Fault = err.Error()
+		return line
+	}
+	if err := cut.Open(); err != nil {
+		line.Fault = err.Error()
+		return line
+	}
+	defer cut.Conn.Close()
+	p1, err := cut.ConnectPeer(nil, 3*time.Second)
+	if err != nil {
+		line.Fault = "connect: " + err.Error()
+		return line
+	}
+	t1 := time.Now()
+	if !cut.WaitState("NS", time.Second) {
+		p1.Close()
+		line.Fault = "generation 1 did not reach NotSelected"
+		return line
+	}
+	time.Sleep(time.Until(t1.Add(t7 + time.Duration(offMs)*time.Millisecond)))
+	if p1.EOF(0) { // the library's own T7 was faster than the planned close: nothing to observe
+		p1.Close()
+		line.Fault = "generation 1 had already been dropped by its T7"
+		return line
+	}
+	p1.Close()
+	t2 := time.Now()
+	p2, err := cut.ConnectPeer(nil, 3*time.Second)
+	if err != nil {
+		line.Fault = "reconnect: " + err.Error()
+		return line
+	}
+	defer p2.Close()
+	line.Dropped2 = p2.EOF(t7 + 2*time.Second)
+	line.Dwell2Us = int(time.Since(t2) / time.Microsecond)
+	return line
 }
 
 func staleScenario(passive bool, drop string) *staleLine {
@@ -205,6 +258,9 @@ func runStale(args []string) int {
 	for i := 0; i < *reps; i++ {
 		for _, passive := range []bool{true, false} {
 			w.Emit(staleScenario(passive, "linktest"))
+		}
+		for _, off := range []int{-9, -6, -4, -2} {
+			w.Emit(staleT7Scenario(off))
 		}
 	}
 	if err := w.Close(); err != nil {
